@@ -19,11 +19,21 @@ Implementation entry points driven (real code from $VERIF_REPO/src):
       VolumeGeometry.with_array(...), or produced by Volume.permute_spatial_axes / swap_spatial_axes /
       to_patient_orientation / flip_spatial / __getitem__ / copy, encoded with a native (explicit / implicit
       VR) or encapsulated (RLE, JPEG-LS) transfer syntax; malformed permute / swap / flip calls,
+  the same objects after they were written in DICOM file format and opened again: hd.seg.segread / hd.imread
+      (fp = bytes | binary stream | path | PathLike, lazy_frame_retrieval = False | True -> io.ImageFileReader),
+      get_volume combined, per segment (combine_segments=False) and by sub-region; plane / tile sizes with
+      every number of pixels modulo 8 (bit-packed BINARY frames that do not start on byte boundaries),
+  hd.pm.ParametricMap(source images | plane_positions [+ plane_orientation, pixel_measures]) in the PATIENT
+      coordinate system with its planes listed in any order (ascending, descending, interleaved, rotated,
+      shuffled; complete or with gaps; series of single-frame sources or one multi-frame source; sources with
+      another geometry / number of planes than the map) and in the SLIDE coordinate system aligned with the
+      frames of a TILED_FULL / TILED_SPARSE (frames in any order) source -> hd.Image.from_dataset / hd.imread
+      (eager, lazy) -> get_volume_geometry, get_volume(...), per-frame PlanePositionSequence + get_frame,
   hd.seg.create_segmentation_pyramid(...) from one source + down-sampling factors, and (downsample_factors=None)
       from several source images of one pyramid with one or with as many masks, and from one source image
       with several masks,
   Image._standardize_slice_indices, Image._standardize_row_column_indices.
-Model: coq/theories/C03_Model.v; theorems: C03_Props.v.
+Model: coq/theories/C03_Model.v, C03_Model_PM.v; theorems: C03_Props.v.
 """
 import itertools
 import os
@@ -67,7 +77,14 @@ MODELLED = ('image.py _standardize_slice_indices, _standardize_row_column_indice
             'calls give the model the volume the calls START from. *_mem cases are otherwise compared against the '
             'layout-free model term: memory layout (strides, order, offset), dtype and transfer syntax of the pixel '
             'array are NOT inputs of the model (value semantics), Volume.__getitem__ with steps of +-1 / copy / '
-            'with_array are compared through the volume they result in')
+            'with_array are compared through the volume they result in. '
+            'pm/sop.py ParametricMap.__init__ (C03_Model_PM.v pm_stored): which plane positions / orientation / '
+            'pixel measures are recorded (the caller\'s when given, else the sources\'; no sorting, omission or '
+            'spacing inference), the count guard (ValueError), frame k = (plane position k, plane k of the pixel '
+            'array); the read-back of a parametric map goes through the same stored / get_volume model; tiled '
+            'parametric maps aligned with their source through run_tiled. *_rd cases (object written to a file '
+            'and opened again, eagerly or with lazy_frame_retrieval, from bytes / stream / path) are compared '
+            'against the reader-free model term: HOW a stored object is opened is NOT an input of the model')
 STRATA = ['std_slice', 'std_slice_err', 'std_rc', 'std_rc_err', 'vol', 'vol_sub', 'vol_sub_err', 'src', 'src_irregular',
           'src_img',
           'tiled', 'tiled_err', 'pyramid', 'pyramid_err', 'pyr_multi', 'pyr_multi_err', 'tiled_place',
@@ -78,7 +95,13 @@ NOT_EXECUTED = ['several focal planes in tiled images',
                 'get_volume with rtol/atol other than the defaults',
                 'JPEG 2000 (no codec installed); JPEG-LS frames with fewer than 5 rows / columns (pyjpegls cannot '
                 'encode them); workers != 0 (frames encoded in a process pool); pixel arrays of dtypes the '
-                'constructor refuses (signed / 32-64 bit integers, big-endian)']
+                'constructor refuses (signed / 32-64 bit integers, big-endian)',
+                'float32 / float64 parametric maps (cannot be read through the image interface at all: open '
+                'finding D35 of C19); parametric maps with several channels (4D pixel arrays); tiled parametric '
+                'maps with explicit plane_positions that are NOT those of the source frames in source order '
+                '(the constructor then records a total pixel matrix that is too large - reported as a defect of '
+                'the unchanged code, see claims note); encapsulated transfer syntaxes for '
+                'BINARY segmentations (not generated)']
 RULE = ('std_*: exhaustive small cube of (start, end, n, as_indices) in all argument forms; vol: 48 signed axis '
         'permutations + rational oblique rotations x both handednesses x dyadic anisotropic spacings x positions x '
         'label maps with leading/interior/trailing empty slices x omit x segmentation type x channel/labelmap input x '
@@ -104,6 +127,17 @@ RULE = ('std_*: exhaustive small cube of (start, end, n, as_indices) in all argu
         'volume (none, permute_spatial_axes, swap_spatial_axes, to_patient_orientation, flip_spatial, __getitem__ '
         'with reversed axes, VolumeGeometry.with_array, copy) - each layout preset and each call at least once; '
         'vol_mem_err: permute / swap / flip with a non-permutation, a missing axis, twice the same axis. '
+        'vol_rd / src_rd / src_img_rd / tiled_rd: the object is saved and opened again - reader (eager | lazy) x '
+        'file argument (bytes, stream, path str, PathLike) x plane / tile size with rows * columns = 0..7 (mod 8) '
+        '(each residue at least once as a lazily read BINARY volume and as a tiled segmentation) x >= 2 frames x '
+        'BINARY / LABELMAP / FRACTIONAL x explicit / implicit VR (RLE where admissible) x Segmentation / Image '
+        'interface x combined, per segment and sub-region reads; pm: order of the planes (sorted, reversed, '
+        'shuffled, interleaved, rotated - each x each entry at least once) x entry (aligned series, aligned '
+        'multi-frame source, explicit plane_positions next to sources with the same / another geometry and '
+        'count) x explicit orientation / measures x recorded slice spacing or none x gaps x uint8 / uint16 x '
+        'transfer syntax x reader (memory, eager file, lazy file) x allow_missing_positions x sub-volume '
+        'arguments; pm_err: count of positions differs from the count of planes; pm_tiled: TILED_FULL / '
+        'TILED_SPARSE source with frames in any order x explicit (source) positions x region x reader. '
         'non-trivial = more than one slice/voxel or a refusal; distinct by case hash')
 EXHAUSTIVE = {'quick': False, 'thorough': False}
 
@@ -1422,6 +1456,18 @@ def _reopen(ds, rd, reader, tmp):
     return reader(fp, lazy_frame_retrieval=rd['lazy'])
 
 
+def _catch_io(fn):
+    """common.catch, and a failure to read a frame from the file (OSError / EOFError of the lazy reader) is an
+    outcome of the observation too - not an error of the harness"""
+    import contextlib
+    import io
+    try:
+        with contextlib.redirect_stderr(io.StringIO()):      # (the lazy reader also prints what it raises)
+            return catch(fn)
+    except (OSError, EOFError):
+        return Err('OSError')
+
+
 def _cleanup(tmp):
     for p in tmp:
         try:
@@ -1462,9 +1508,9 @@ def _run_rd(c):
         else:
             geo = catch(lambda: _geom_out(obj.get_volume_geometry()))
         binar = c['api'] == 'image' and c['typ'] != 'LABELMAP'
-        full = catch(lambda: _vol_out(_obj_get_vol(c, obj, {}), binar))
-        sub = catch(lambda: _vol_out(_obj_get_vol(c, obj, _kw(c)), binar))
-        again = catch(lambda: _vol_out(_obj_get_vol(c, obj, {}, per_segment=True), binar))
+        full = _catch_io(lambda: _vol_out(_obj_get_vol(c, obj, {}), binar))
+        sub = _catch_io(lambda: _vol_out(_obj_get_vol(c, obj, _kw(c)), binar))
+        again = _catch_io(lambda: _vol_out(_obj_get_vol(c, obj, {}, per_segment=True), binar))
         return [geo, full, sub, again]
     finally:
         _cleanup(tmp)
@@ -1540,8 +1586,8 @@ def _run_pm(c):
         else:
             obj = _reopen(pm, c['rd'], hd.imread, tmp)
         geo = catch(lambda: _geom_out(obj.get_volume_geometry(allow_missing_positions=c['allow_missing'])))
-        full = catch(lambda: _vol_out(_obj_get_vol(c, obj, {})))
-        sub = catch(lambda: _vol_out(_obj_get_vol(c, obj, _kw(c))))
+        full = _catch_io(lambda: _vol_out(_obj_get_vol(c, obj, {})))
+        sub = _catch_io(lambda: _vol_out(_obj_get_vol(c, obj, _kw(c))))
         rec = [[float(x) for x in it.PlanePositionSequence[0].ImagePositionPatient]
                for it in obj.PerFrameFunctionalGroupsSequence]
         frames = []
@@ -1551,8 +1597,9 @@ def _run_pm(c):
             if len(hit) != 1:
                 frames.append(f'{len(hit)} frames record this position')
             else:
-                px = obj.get_frame(hit[0] + 1, apply_real_world_transform=False)
-                frames.append([rec[hit[0]], np.asarray(px).astype(np.int64).tolist()])
+                px = _catch_io(lambda: np.asarray(obj.get_frame(
+                    hit[0] + 1, apply_real_world_transform=False)).astype(np.int64).tolist())
+                frames.append([rec[hit[0]], px])
         if len(rec) != len(c['positions']):
             frames.append(f'{len(rec)} frames')
         return [geo, full, sub, frames]
@@ -1591,11 +1638,15 @@ def _run_pm_tiled(c):
     if c['explicit']:
         kw['plane_positions'] = DimensionIndexSequence('SLIDE').get_plane_positions_of_image(sm)
     tmp = []
-    try:
+
+    def f():
         pm = _pm_make([sm], tiles, **kw)
         obj = hd.Image.from_dataset(pm, copy=True) if c['rd'] is None else _reopen(pm, c['rd'], hd.imread, tmp)
         g = obj.get_volume_geometry()
-        return [_geom_out(g), catch(lambda: _vol_out(obj.get_volume(apply_real_world_transform=False, **_kw(c))))]
+        return [_geom_out(g),
+                _catch_io(lambda: _vol_out(obj.get_volume(apply_real_world_transform=False, **_kw(c))))]
+    try:
+        return catch(f)
     finally:
         _cleanup(tmp)
 
@@ -1758,7 +1809,7 @@ def run_impl(c):
                 try:
                     obj = _reopen(obj, c['rd'], hd.seg.segread, tmp)
                     return [_geom_out(obj.get_volume_geometry()),
-                            catch(lambda: _vol_out(obj.get_volume(combine_segments=True, **_kw(c))))]
+                            _catch_io(lambda: _vol_out(obj.get_volume(combine_segments=True, **_kw(c))))]
                 finally:
                     _cleanup(tmp)
             g = obj.get_volume_geometry()
@@ -2318,6 +2369,8 @@ def oracle(c, out):
                     return 'left-handed input: returned volume is not the mirror image along the stacking axis'
         return _check_sub(c, full, sub, n0)
     if k in ('tiled', 'tiled_err'):
+        if isinstance(out, Err):
+            return f'a valid tiled parametric map could not be built: {out}'
         geo, vol = out
         rc = np.array([_f(x) for x in c['rowcos']])
         cc = np.array([_f(x) for x in c['colcos']])
@@ -2424,6 +2477,27 @@ def nontrivial(c, out):
 
 def shrink(c):
     k = c['kind']
+    if c.get('rd'):
+        if c['rd']['fp'] != 'bytes':
+            yield dict(c, rd=dict(c['rd'], fp='bytes'))
+        if c['rd']['lazy']:
+            yield dict(c, rd=dict(c['rd'], lazy=False))
+        if k in ('pm', 'pm_tiled'):
+            yield dict(c, rd=None)
+        if c.get('ts') not in (None, 'explicit'):
+            yield dict(c, ts='explicit')
+    if k == 'pm':
+        for key in ('ss', 'se', 'rs', 're', 'cs', 'ce'):
+            if c.get(key) is not None:
+                yield dict(c, **{key: None})
+        if c['entry'] != 'positions' and c['S'] > 2 and all(c.get(x) is None for x in ('ss', 'se')):
+            for drop in (c['S'] - 1, 0):
+                cut = lambda l: l[:drop] + l[drop + 1:]      # noqa: E731
+                yield dict(c, S=c['S'] - 1, arr=cut(c['arr']), ms=cut(c['ms']), positions=cut(c['positions']),
+                           src=dict(c['src'], positions=cut(c['src']['positions'])))
+        if c['u_pm'] is not None and c['entry'] != 'positions':
+            yield dict(c, u_pm=None, eff_sbs=c['src']['sbs'])
+        return
     if c.get('mem') and not c['mem'].get('bad'):
         m = c['mem']
         if m.get('op') is not None:
@@ -2474,7 +2548,7 @@ def shrink(c):
                         arr = [[list(rw) for rw in p] for p in c['arr']]
                         arr[s][r][cc] = 1
                         yield dict(c, arr=arr)
-    elif k.startswith('tiled'):
+    elif k.startswith('tiled') or k == 'pm_tiled':
         for key in ('ss', 'se', 'rs', 're', 'cs', 'ce'):
             if c.get(key) is not None:
                 yield dict(c, **{key: None})
